@@ -815,7 +815,7 @@ Theorem poll_pipe_tail : forall (s s' : vsock),
 Proof.
   intros s s' Hti Hpn H Hnp.
   assert (HS : tail_shape pC s').
-  { apply (poll_S cci pA0 pA pB pC) with (s := s); try exact H.
+  { apply (poll_S cci pA0 pA pB pB pC pC) with (s := s); try exact H.
     - (* poll_start *)
       intros a (T & A & Q). unfold pA. split; [apply poll_start_ti; exact T|].
       split; [exact A|]. split; [reflexivity|].
